@@ -579,6 +579,8 @@ def check_property(pid, tier="quick", seed=0, bounded_hooks=None, only=None, wri
             run.say(f"CHECKER-FAULT property={pid} function={c.key}: no live path (vacuous precondition?)")
             run.faults.append(f"{c.key}: no live path")
             continue
+        if c.ignore:
+            rep.obligations = [o for o in rep.obligations if not any(s_ in o[0] for s_ in c.ignore)]
         sel = c.only.get(pid)
         if sel:
             rep.obligations = [o for o in rep.obligations if any(s_ in o[0] for s_ in sel)]
